@@ -138,6 +138,16 @@ class MarkovChainMonteCarloRewiring(MarkovChainMonteCarlo):
                 )
                 return False
 
+        # a focal vertex must not already belong to the motif it is moving into
+        id0 = G.edges[e0s[0]][NetworkNames.MOTIF_IDS]
+        id1 = G.edges[e1s[0]][NetworkNames.MOTIF_IDS]
+        for e in G.edges(u0):
+            if G.edges[e][NetworkNames.MOTIF_IDS] == id1:
+                return False
+        for e in G.edges(v0):
+            if G.edges[e][NetworkNames.MOTIF_IDS] == id0:
+                return False
+
         # check none of the potential target edges are already present
         # this checks all possible edges that *could* be made.
         for e0 in e0s:
